@@ -490,6 +490,24 @@ func init() {
 	reg("(*github.com/go-jose/go-jose/v4.JSONWebSignature).Verify", func(ex *Exec, fn *ssa.Function, a []Value) Value {
 		return ex.joseVerify(a[0].(Ptr), a[1])
 	})
+	reg("(github.com/go-jose/go-jose/v4.JSONWebSignature).Verify", func(ex *Exec, fn *ssa.Function, a []Value) Value {
+		// value receiver: recover the token identity from the (payload, alg) the parser recorded
+		jws := a[0].(*StructV)
+		jwsT := ex.eng.LookupType("github.com/go-jose/go-jose/v4", "JSONWebSignature")
+		obj := ex.newObj(jws, jwsT)
+		payload := ex.bytesTerm(jws.Fields[fieldIndex(jwsT, "payload")])
+		if sigs, ok := jws.Fields[fieldIndex(jwsT, "Signatures")].(SliceV); ok && sigs.Len > 0 {
+			sg := sigs.get(0).(*StructV)
+			sigT := structOf(jwsT).Field(fieldIndex(jwsT, "Signatures")).Type().Underlying().(*types.Slice).Elem()
+			hi := fieldIndex(sigT, "Header")
+			h := sg.Fields[hi].(*StructV)
+			alg := h.Fields[fieldIndex(structOf(sigT).Field(hi).Type(), "Algorithm")].(*Term)
+			if tok, ok := ex.memo["jwsofpayload:"+payload.String()+"|"+alg.String()]; ok {
+				ex.memo[fmt.Sprintf("jwsof:%d", obj.ID)] = tok
+			}
+		}
+		return ex.joseVerify(Ptr{Obj: obj}, a[1])
+	})
 }
 
 // readAll drains an io.Reader model.
@@ -563,6 +581,7 @@ func (ex *Exec) joseParseSigned(fn *ssa.Function, tok *Term, algs SliceV) Value 
 		}
 		obj := ex.newObj(jws, jwsT)
 		ex.memo[fmt.Sprintf("jwsof:%d", obj.ID)] = tok
+		ex.memo["jwsofpayload:"+payload.String()+"|"+alg.String()] = tok
 		return Tuple{Ptr{Obj: obj}, Iface{}}
 	}
 	inList := func(alg *Term) *Term {
@@ -610,6 +629,9 @@ func (ex *Exec) keyIdentity(k Value) *Term {
 		}
 		if sv, ok := (*x.slot()).(*StructV); ok {
 			return ex.keyIdentity(sv)
+		}
+		if o, ok := (*x.slot()).(*Opaque); ok {
+			return ex.keyIdentity(o)
 		}
 		return StrLit(fmt.Sprintf("obj%d", x.Obj.ID))
 	case *StructV:
